@@ -8,6 +8,7 @@ import (
 	"sync"
 	"testing"
 	"time"
+	"verif/lib/benchgen"
 
 	"pgregory.net/rapid"
 )
@@ -91,7 +92,7 @@ func TestExplore(t *testing.T) {
 	}
 	wg.Wait()
 	fmt.Printf("explored %d cases: %d failed (not known), %d timeouts, known hits %v\n", len(cases), fails, timeouts, known)
-	for _, k := range workloadNames {
+	for _, k := range benchgen.WorkloadNames() {
 		fmt.Printf("  %-22s %3d run %3d failed  max %.1fs  mean %.1fs\n", k, perW[k][0], perW[k][1], maxWall[k], sumWall[k]/float64(max(perW[k][0], 1)))
 	}
 }
